@@ -2,6 +2,7 @@ import Lean.Data.Json
 import NdcubeModel.Model.Cube
 import NdcubeModel.Model.Sequence
 import NdcubeModel.Model.Collection
+import NdcubeModel.Model.Rebin
 
 /-!
 # Line-protocol driver
@@ -304,6 +305,56 @@ def opCollection (j : Json) : R Json := do
           go c' rest ((Json.mkObj ([("state", collJson c')] ++ extra)) :: acc)
     pure (Json.mkObj [("init", collJson c0), ("steps", Json.arr (go c0 ops []).toArray)])
 
+/-! ## rebin (C08) -/
+
+def asVal (j : Json) : R Val :=
+  match j with
+  | .str "nan" => pure .nan
+  | _ => (asRat j).map Val.num
+
+def valJson : Val → Json
+  | .nan => .str "nan"
+  | .num q => ratJson q
+
+def asReduction (s : String) : R Reduction :=
+  match s with
+  | "sum" => pure .sum | "mean" => pure .mean | "nansum" => pure .nansum | "nanmean" => pure .nanmean
+  | "min" => pure .min | "max" => pure .max | "prod" => pure .prod
+  | _ => .error s!"unknown reduction {s}"
+
+def asMaskIn (j : Json) : R MaskIn :=
+  match j with
+  | .null => pure .absent
+  | .bool b => pure (.scalar b)
+  | _ => (asList asBool j).map MaskIn.array
+
+def maskOutJson : MaskOut → Json
+  | .absent => .null
+  | .scalar b => .bool b
+  | .array bits => listJson Json.bool bits
+
+def asRebinIn (j : Json) : R RebinIn := do
+  let shape ← field j "shape" >>= asList asNat
+  let data ← field j "data" >>= asList asVal
+  let mask ← match j.getObjVal? "mask" with
+    | .ok m => asMaskIn m
+    | .error _ => pure .absent
+  let bs ← field j "binShape" >>= asList asRat
+  let op ← field j "operation" >>= asStr >>= asReduction
+  let ign ← field j "ignoresMask" >>= asBool
+  let hm ← field j "handleMask" >>= asStr
+  let hm ← match hm with
+    | "all" => pure HandleMask.all | "any" => pure HandleMask.any | "none" => pure HandleMask.none
+    | _ => .error "handleMask must be all/any/none"
+  pure { shape := shape, data := data, mask := mask, binShape := bs, op := op, ignoresMask := ign, handleMask := hm }
+
+def opRebin (j : Json) : R Json := do
+  let x ← asRebinIn j
+  match rebin x with
+  | .error e => pure (errJson e)
+  | .ok o => pure <| Json.mkObj [("identity", .bool o.identity), ("shape", listJson natJson o.shape),
+      ("values", listJson (optJson valJson) o.values), ("mask", maskOutJson o.mask)]
+
 def dispatch (j : Json) : R Json := do
   let op ← field j "op" >>= asStr
   match op with
@@ -313,6 +364,7 @@ def dispatch (j : Json) : R Json := do
   | "iac" => opIac j
   | "seq_shape" => opSeqShape j
   | "collection" => opCollection j
+  | "rebin" => opRebin j
   | _ => .error s!"unknown op {op}"
 
 def handleLine (line : String) : String :=
